@@ -166,10 +166,10 @@ PROPS = {
         level_text="Bounded model checking of Codes::{from_code_const,to_code_const,eq,from_str}: all identifiers 0..=50 and out-of-range ones; code->identifier->code gives identical codewords on a model stream with symbolic values; == holds exactly inside the classes of codes with identical codewords (symbolic variants and parameters over the full usize range) and the members of each class have identical codewords; FromStr parses the literal names, Name(k) with symbolic one/two-digit k, and rejects malformed texts. Display is executed natively only (see outside_claim).",
         assumptions=[
             "Display is prefix + decimal(k) + suffix uniformly in k (core's integer formatting trusted); the printed templates are obtained by running the real Display natively on the current tree",
-            "parameters 0..=12 concrete for identifier round trips; parse: one- and two-digit parameters symbolic (thorough tier: from_str costs ~10 min / 7 GB per harness)",
+            "parameters 0..=12 concrete for identifier round trips; parse: concrete parameters 0, 7, 64, 255, 256, 300, 65536, 2^32 (quick: a subset; text built from the Display template), one- and two-digit parameters symbolic (thorough tier: from_str costs ~10 min / 7 GB per harness; three symbolic digits exceed 30 GB)",
             "anyhow / CodeError values are forgotten, message formatting stubbed",
         ],
-        outside=COMMON_OUTSIDE + ["symbolic execution of core::fmt (Display)", "parameters with three or more digits on the parse side"],
+        outside=COMMON_OUTSIDE + ["symbolic execution of core::fmt (Display)", "symbolic parameters with three or more digits on the parse side (a concrete grid is checked instead); usize::MAX only in the thorough tier"],
     ),
     "C19": dict(
         prefixes=["c19_", "c01_write_bits", "c01_write_unary", "c03_w_", "c08_copy", "c12_write"],
